@@ -316,7 +316,8 @@ S("c15_reqqueue", 400, 12000),   # REQ with requests queued before the connectio
         "level": "exploration",
         "rule": NT_RULE + "; C01: at least one message crossed the connection and was compared byte for byte with what "
                           "was sent (c01_link: nng<->nng; c01_wire: nng<->raw wire peer; c01_cuts: every single cut "
-                          "position of a small frame on nng's read side and/or write side)",
+                          "position of a small frame on nng's read side and/or write side; c01_bursts: nng<->nng, "
+                          "bursts with empty messages towards a slow receiver)",
         "budget_s": {"quick": 50, "thorough": 900},
         "scenarios": [
             S("c18_fifo_seq", 600, 18000, label="resize"),  # order on one connection also while the buffers behind it are resized (round-4 seeded C01_9)
@@ -324,8 +325,14 @@ S("c15_reqqueue", 400, 12000),   # REQ with requests queued before the connectio
             S("c01_link", 1700, 33000),
             S("c01_wire", 2000, 39000),
             S("c01_cuts", 900, 18000),
+            S("c01_bursts", 800, 18000),    # bursts with empty messages (first, last, several in a row) while the receiving application pauses, small RECVBUF, every transport, PAIR0/PAIR1/PUSH-PULL/BUS/raw PAIR0; every burst also as its twin with one byte in place of nothing (scenarios/c01c_bursts.cc)
         ],
         "assumptions": [
+            "c01_bursts: several consecutive sends that come out as one receive are a merged message also when all but "
+            "one of them are empty (the bytes of the receive cannot show it, the count of receives does); claimed only "
+            "with a reference point - undisturbed connection, every send accepted, every byte of the burst arrived in "
+            "order, and the twin burst (one payload byte in place of each empty message, same pauses of the receiver) "
+            "was delivered message by message; never for BUS; plain loss is only counted (c01b_lost_no_fault)",
             "loss is not a violation ('or not at all'): it is counted (stats lost / probes c01_lost_no_fault, "
             "c01_cut_msg_lost); a receiver-side observation is matched to the earliest not yet observed sent message "
             "with exactly these bytes that lies after the last one observed on the same connection",
